@@ -63,6 +63,15 @@ CHECKS = {
         note="Value-independence of the guards is proved for the model and sampled in the code; CPython's do_richcompare is modelled (Py/PyCmp.v)."),
 }
 
+CHECKS["C17"] = dict(
+    text="Theorems for every version type with a total preorder and every well-formed star-free range: each presentation-level operation (rebuild from any "
+         "rearrangement of the constraints = print+parse / permute+rebuild, simplify, validate, invert twice, parse with simplify/validate flags; each the code-shaped "
+         "model of the public operation) is enabled and never raises; after any finite history the containment answer for every version equals the initial one; and "
+         "once a simplification has happened the constraint list never changes again. By induction over the history from the one-step theorems of C04/C07/C08/C09. "
+         "Correspondence: random walks over the operation alphabet on the real API with the full membership vector and canonical text observed after every step.",
+    ref="6 (C17)", technique="Coq proof (induction over histories from one-step lemmas) + random-walk correspondence against the model's state",
+    note="Assumes C01/C02/C12 of the scheme and that print+parse is a rebuild (C05/C11 of the scheme, text level). '*' has no inverse and is treated separately.")
+
 PENDING = {}
 
 
